@@ -577,8 +577,8 @@ fn cx_dest(cx: &mut Ctx) -> usize {
 }
 
 pub const C02_PROBES: &[&str] = &[
-    "handoff_via_into_request",
-    "reply_flood",
+    "handoff_via_into_request", "configured_size_below_24",
+    "reply_flood", "getvalues_over_256_pairs",
     "buffer_over_64k",
     "conversion_probe_ok", "conversion_probe_interrupted",
     "record_65535", "payload_moved_with_parsed_nonempty", "held_back_header_seen", "dest_len_zero", "compress_with_stream_data",
@@ -586,14 +586,14 @@ pub const C02_PROBES: &[&str] = &[
     "noise_getvalues", "noise_unknown_type", "noise_foreign_begin", "noise_stale_params", "noise_huge_record", "noise_foreign_id",
 ];
 pub const C18H_PROBES: &[&str] = &[
-    "handoff_via_into_request",
+    "handoff_via_into_request", "configured_size_below_24",
     "buffer_over_64k",
     "conversion_probe_ok", "conversion_probe_interrupted",
     "noncompliant_order", "early_advance", "rejected_selection", "rejected_selection_mid_record", "reselect_current_mid_record", "held_back_header_seen",
     "stopped_mid_stream", "into_input_checked", "dest_len_zero", "compress_with_stream_data",
 ];
 pub const C05_PROBES: &[&str] = &[
-    "handoff_via_into_request",
+    "handoff_via_into_request", "configured_size_below_24",
     "conversion_probe_ok", "conversion_probe_interrupted",
     "chain_requests_2plus", "lookahead_at_handoff", "handoff_full_buffer", "fed_after_done", "converted_with_stream_selected", "converted_with_unconsumed_stream_data", "stopped_mid_stream", "held_back_header_seen",
     "exact_fill_read", "parse0_on_full_buffer",
@@ -615,10 +615,18 @@ pub struct ReqCase {
 
 /// One whole request (preamble + streams) with noise.
 pub fn gen_request(cx: &mut Ctx, noise_num: u32, pair_cap: usize, noise_pair_max: usize, compliant: bool, idle_noise: bool, phase: Phase) -> ReqCase {
+    gen_request_n(cx, 4, noise_num, pair_cap, noise_pair_max, compliant, idle_noise, phase)
+}
+
+/// Parameters of a request whose every Params / GetValues record stays below 12 bytes, so that configured buffer
+/// sizes below the 24-byte minimum apply: (max_pairs, pair_cap, noise_pair_max).
+pub const TINY_UNITS: (usize, usize, usize) = (0, 0, 2);
+
+pub fn gen_request_n(cx: &mut Ctx, max_pairs: usize, noise_num: u32, pair_cap: usize, noise_pair_max: usize, compliant: bool, idle_noise: bool, phase: Phase) -> ReqCase {
     let id = gen_id(cx);
     let role = gen_role(cx);
     let flags = cx.ch.byte();
-    let pairs = gen_pairs(cx, 4, pair_cap, false);
+    let pairs = gen_pairs(cx, max_pairs, pair_cap, false);
     let mut recs = Vec::new();
     preamble_records(cx, &mut recs, id, role, flags, &pairs, noise_num, noise_pair_max, idle_noise);
     stream_records(cx, &mut recs, id, role, noise_num, noise_pair_max, compliant, phase);
@@ -627,6 +635,11 @@ pub fn gen_request(cx: &mut Ctx, noise_num: u32, pair_cap: usize, noise_pair_max
 }
 
 pub fn pick_small_bufsize(cx: &mut Ctx, need: usize) -> usize {
+    if need <= 24 && cx.ch.chance(2, 3) {
+        // configured sizes below the protocol minimum: same effective size (24) on every construction route
+        cx.probe("configured_size_below_24");
+        return cx.ch.range(0, 24);
+    }
     match cx.ch.weighted(&[3, 3, 2, 2]) {
         0 => need.max(24),
         1 => need.max(24) + cx.ch.range(0, 64),
@@ -717,7 +730,7 @@ pub fn stream_scenario(cx: &mut Ctx, c18: bool) -> VResult {
     let oracle = if c18 { "c18_delivery" } else { "c02_delivery" };
     let noise = cx.ch.pick(5);
     let compliant = !c18 || cx.ch.chance(1, 4);
-    let rc = gen_request(cx, noise, 60, 24, compliant, false, Phase::Stream);
+    let rc = if cx.ch.chance(1, 12) { gen_request_n(cx, TINY_UNITS.0, noise, TINY_UNITS.1, TINY_UNITS.2, compliant, false, Phase::Stream) } else { gen_request(cx, noise, 60, 24, compliant, false, Phase::Stream) };
     let mut rc = rc;
     let flood = !c18 && cx.ch.chance(1, 40);
     if flood {
@@ -728,9 +741,21 @@ pub fn stream_scenario(cx: &mut Ctx, c18: bool) -> VResult {
         for _ in 0..n { rc.recs.insert(at, Rec::new(t, 0, Vec::new(), 0)); }
         cx.probe("reply_flood");
     }
+    let many_gv = !c18 && !flood && cx.ch.chance(1, 40);
+    let mut gv_len = 0;
+    if many_gv {
+        // one GetValues query with hundreds of pairs in the stream phase (examined whole by one call below)
+        let at = rc.recs.iter().position(|r| r.rtype == PARAMS && r.id == rc.id && r.content.is_empty()).expect("params end") + 1;
+        let at = cx.ch.range(at, rc.recs.len());
+        let body = gen_getvalues_many(cx);
+        gv_len = body.len();
+        let pad = gen_padding(cx);
+        rc.recs.insert(at, Rec::new(GETVALUES, 0, body, pad));
+    }
     let wire = encode_all(&rc.recs);
     let need = longest_pair(&rc.recs) + 13;
     let mut bufsize = pick_small_bufsize(cx, need);
+    if many_gv && cx.ch.chance(3, 4) { bufsize = bufsize.max(gv_len + 300 + cx.ch.range(0, 5000)); }
     if wire.len() > 65536 && cx.ch.chance(1, 2) {
         // a buffer that can hold more than 64 KiB of raw data behind one header
         bufsize = cx.ch.one_of(&[65552usize, 70000, 131072, 200000]);
@@ -741,7 +766,7 @@ pub fn stream_scenario(cx: &mut Ctx, c18: bool) -> VResult {
     let PreOutcome::Done(info) = &pm.outcome else { panic!("harness: generated preamble incomplete") };
     let sm = model::stream(&wire, info.end, info.id, info.role, max_conns);
     let cfg = config(bufsize, max_conns);
-    let style = calm(pick_style(cx), wire.len());
+    let style = if many_gv && cx.ch.chance(3, 4) { if cx.ch.chance(1, 2) { Style::Whole } else { Style::Large } } else { calm(pick_style(cx), wire.len()) };
     if cx.want_sample {
         let recs: Vec<String> = rc.recs.iter().take(30).map(Rec::short).collect();
         cx.sample = Some(format!("role={} id={} bufsize={} style={:?} c18={} records=[{}]", rc.role, rc.id, bufsize, style, c18, recs.join(" ")));
@@ -900,12 +925,13 @@ pub fn c05(cx: &mut Ctx) -> VResult {
     let k = 1 + cx.ch.weighted(&[2, 4, 3, 1]);
     if k >= 2 { cx.probe("chain_requests_2plus"); }
     let noise = cx.ch.pick(4);
+    let tiny = cx.ch.chance(1, 10);
     let mut reqs = Vec::new();
     let mut all: Vec<Rec> = Vec::new();
     let mut bounds = Vec::new(); // (start, end) record index per request
     for i in 0..k {
         let idle = i == 0 || cx.ch.chance(1, 2);
-        let rc = gen_request(cx, noise, 60, 24, true, idle, Phase::Either);
+        let rc = if tiny { gen_request_n(cx, TINY_UNITS.0, noise, TINY_UNITS.1, TINY_UNITS.2, true, idle, Phase::Either) } else { gen_request(cx, noise, 60, 24, true, idle, Phase::Either) };
         bounds.push((all.len(), all.len() + rc.recs.len()));
         all.extend(rc.recs.iter().cloned());
         reqs.push(rc);
